@@ -101,7 +101,9 @@ CP_NAME = {"cp1": "CP_Baudrate", "cpx": "CP_UniqueRespIdTable"}
 def comparam_ref(key: List[str], layer_idx: int) -> str:
     name, proto = key
     if name == "cp1":
-        val = f"<SIMPLE-VALUE>{1000 * layer_idx + (1 if proto else 0)}</SIMPLE-VALUE>"
+        # every third layer leaves the value out (the default of the specification applies); the owner is told by the DESC
+        v1 = "" if layer_idx % 3 == 0 else str(1000 * layer_idx + (1 if proto else 0))
+        val = f"<SIMPLE-VALUE>{v1}</SIMPLE-VALUE><DESC><p>owner {layer_idx}</p></DESC>"
     else:
         # odd layers leave the second sub-value out (the default of the specification applies)
         second = "" if layer_idx % 2 else str(200 + layer_idx)
@@ -312,7 +314,8 @@ def process(cfgs: List[Dict[str, Any]]) -> Dict[str, Any]:
                 st["accessor_calls"] += 1
                 try:
                     if name == "cp1":
-                        want = 1000 * own + (1 if which else 0)
+                        want = 500000 if own % 3 == 0 else 1000 * own + (1 if which else 0)
+                        st["default_fallbacks"] += own % 3 == 0
                         if cp.get_value() != str(want):
                             fail("C15", "value", cfg, {"layer": i, "name": name, "expected": want, "got": cp.get_value()})
                         if lay.get_can_baudrate(protocol=proto or None) != want:
@@ -343,6 +346,9 @@ def CP_KEY(cp: Any) -> str:
 def _cp_owner(cp: Any) -> int:
     v = cp.value
     if isinstance(v, str):
+        if v == "":
+            import re
+            return int(re.search(r"owner (\d+)", str(cp.description.text if cp.description else "")).group(1))   # type: ignore[union-attr]
         return int(v) // 1000
     return (int(v[1]) - 100) % 50
 
